@@ -14,7 +14,8 @@
 EXTENDS Integers, FiniteSets, Sequences, TLC, Json
 
 CONSTANTS MaxCap, MaxSlotVer, MaxArchVer, InitCaps, MaxOps, MaxLen, Edges,
-          Events   \* TRUE: feature `events` -- per-world created / destroyed logs, clear_events
+          Events,  \* TRUE: feature `events` -- per-world created / destroyed logs, clear_events
+          Loops    \* TRUE: ecs_iter_destroy! with every non-empty set of flagged entities is an action
 Wrapping == FALSE
 DebugAsserts == TRUE
 
@@ -83,6 +84,29 @@ Drop(w) ==
     /\ ds' = [ds EXCEPT ![w] = <<>>]
     /\ Edge("drop", <<w>>, ex', W', cr', ds')
 
+\* ecs_iter_destroy! over world w with the decision ContinueDestroy for the handles in F and Continue
+\* for the others (macros/src/generate/query.rs generate_query_iter_destroy): len is read once, the
+\* index runs from len-1 down to 0, the entity found at the index is visited and, when flagged, removed
+\* by the same force_destroy as a single destroy (swap-remove, relink, both generation bumps, one
+\* entry in the destroyed log) before the index moves on.
+RECURSIVE LoopD(_, _, _, _)
+LoopD(s, dl, idx, F) ==
+    IF idx < 0 THEN [s |-> s, d |-> dl]
+    ELSE LET h == <<s.dpos[idx], s.dver[idx]>> IN
+         IF h \in F THEN LoopD(S!ForceDestroy(s, h[1], idx), Append(dl, h), idx - 1, F)
+         ELSE LoopD(s, dl, idx - 1, F)
+LiveOf(s) == {<<s.dpos[i], s.dver[i]>> : i \in {j \in 0..(MaxCap - 1) : j < s.len}}
+DestroyLoop(w) ==
+    \E F \in {G \in SUBSET LiveOf(W[w]) : Cardinality(G) >= 2} :    \* one flagged entity = a single destroy
+        LET r == LoopD(W[w], <<>>, W[w].len - 1, F) IN
+        /\ Loops /\ Step /\ ex[w]
+        /\ \A h \in F : W[w].ver[h[1]] < MaxSlotVer               \* no overflow panic inside the loop
+        /\ W[w].aver + Cardinality(F) <= MaxArchVer
+        /\ W' = [W EXCEPT ![w] = r.s]
+        /\ ds' = IF Events THEN [ds EXCEPT ![w] = @ \o r.d] ELSE ds
+        /\ UNCHANGED <<ex, cr>>
+        /\ Edge("loop_destroy", <<w, r.d>>, ex, W', cr', ds')
+
 \* clear_events (world- or archetype-level: the replay alternates): both logs emptied, nothing else
 ClearEvents(w) ==
     /\ Events /\ Step /\ ex[w]
@@ -92,7 +116,7 @@ ClearEvents(w) ==
     /\ UNCHANGED <<ex, W>>
     /\ Edge("clear_events", <<w>>, ex, W, cr', ds')
 
-Next == \E w \in Worlds : Create(w) \/ Destroy(w) \/ Drop(w) \/ ClearEvents(w) \/ (\E v \in Worlds : Clone(w, v))
+Next == \E w \in Worlds : Create(w) \/ Destroy(w) \/ DestroyLoop(w) \/ Drop(w) \/ ClearEvents(w) \/ (\E v \in Worlds : Clone(w, v))
 Spec == Init /\ [][Next]_vars
 
 \* free chain of one storage (as in StorageMC)
